@@ -229,7 +229,7 @@ func gen(r *common.Rng, tier string, w *bufio.Writer) {
 	if tier == "thorough" {
 		n = 2600
 	}
-	kinds := []string{"plain", "plain", "border", "cold", "ffc", "ffcpair", "resetpair", "dyn", "dyn", "ffcobj", "dynsat"}
+	kinds := []string{"plain", "plain", "border", "cold", "ffc", "ffcpair", "resetpair", "dyn", "dyn", "ffcobj", "dynsat", "swing"}
 	for id := 0; id < n; id++ {
 		kind := kinds[r.Intn(len(kinds))]
 		c := randCfg(r, id == 7)
@@ -267,8 +267,51 @@ func gen(r *common.Rng, tier string, w *bufio.Writer) {
 			genSaturated(r, c, w)
 			continue
 		}
+		if kind == "swing" {
+			c.dyn = 0
+			fmt.Fprintln(w, c.header(id, kind))
+			genSwing(r, c, w)
+			continue
+		}
 		fmt.Fprintln(w, c.header(id, kind))
 		genCase(r, c, kind, w)
+	}
+}
+
+// genSwing: fixed threshold, pixel values over the whole 16-bit range: differences of 32767, 32768, 65535 - delta ...
+// (the arithmetic of the per-pixel difference must not wrap)
+func genSwing(r *common.Rng, c dcfg, w *bufio.Writer) {
+	levels := []int{0, 1, c.thresh, c.thresh + c.delta, c.thresh + c.delta + 1, 29000, 32767, 32768, 32769, 32768 + c.thresh, 40000,
+		65535 - c.delta, 65534, 65535}
+	lv := func() int {
+		v := levels[r.Intn(len(levels))]
+		if v > 65535 {
+			v = 65535
+		}
+		return v
+	}
+	ton := int64(r.Range(20, 200)) * sec
+	bg := lv()
+	y, x := c.h/2, c.w/2
+	for i := 0; i < r.Range(6, 20); i++ {
+		if r.Chance(25) {
+			bg = lv()
+		}
+		f := newFrame(c, bg)
+		if r.Chance(70) {
+			v := lv()
+			for k := 0; k < c.count+r.Pick(-1, 0, 1); k++ {
+				xx := x + k
+				if xx >= c.w {
+					xx = x - k
+				}
+				if xx >= 0 && xx < c.w {
+					f[y][xx] = v
+				}
+			}
+		}
+		fmt.Fprintf(w, "d %d %d %s\n", ton, 0, f.hex())
+		ton += sec / 9
 	}
 }
 
